@@ -36,7 +36,7 @@ Alphabet ==
            Ph("if", <<Wd("if")>>), Ph("then", <<Wd("then")>>), Ph("break", <<Wd("break")>>) >>
     [] Frag = "do" ->
         << Plain(<<L(1)>>), Plain(<<Wd("I")>>), Plain(<<Wd("J")>>), Plain(<<Wd("K")>>), Plain(<<Wd("drop")>>), Plain(<<Wd("+")>>),
-           Plain(<<Wd("print")>>), Plain(<<Wd("I"), L(1), Wd("==")>>),
+           Plain(<<Wd("print")>>), Plain(<<Wd("I"), L(1), Wd("==")>>), Plain(<<Wd("nil")>>),
            Ph("do", <<L(2), L(0), Wd("do")>>), Ph("do", <<L(3), L(1), Wd("do")>>), Ph("do", <<L(0), L(0), Wd("do")>>),
            Ph("do", <<Wd("do")>>), Ph("loop", <<Wd("loop")>>),
            Ph("if", <<Wd("if")>>), Ph("else", <<Wd("else")>>), Ph("then", <<Wd("then")>>), Ph("break", <<Wd("break")>>) >>
@@ -71,6 +71,7 @@ Alphabet ==
            Ph("case", <<Wd("case")>>), Ph("of", <<L(1), Wd("of")>>), Ph("endof", <<Wd("endof")>>), Ph("endcase", <<Wd("endcase")>>) >>
     [] Frag = "grow" ->
         << Plain(<<L(1)>>), Plain(<<Wd("dup")>>), Plain(<<Wd("drop")>>), Plain(<<Wd("unbox")>>), Plain(<<L(2), Wd("collect")>>),
+           Plain(<<Wd("over")>>), Plain(<<Wd("depth")>>),
            Ph("vec", <<Wd("[")>>), Ph("endvec", <<Wd("]")>>),
            Ph("beginR", <<Wd("begin")>>), Ph("repeat", <<Wd("repeat")>>),
            Ph("do", <<L(3), L(0), Wd("do")>>), Ph("loop", <<Wd("loop")>>),
@@ -97,7 +98,7 @@ Alphabet ==
            Ph("var", <<Wd("var"), Wd("g")>>), Ph("setvar", <<Wd("!"), Wd("g")>>),
            Ph("if", <<Wd("dup"), L(2), Wd("<"), Wd("if")>>), Ph("then", <<Wd("then")>>) >>
     [] Frag = "metalim" ->      \* growth inside meta blocks (the hidden outer stack counts towards the stack limit)
-        << Plain(<<L(1)>>), Plain(<<Wd("dup")>>), Plain(<<Wd("drop")>>), Plain(<<Wd("+")>>),
+        << Plain(<<L(1)>>), Plain(<<Wd("dup")>>), Plain(<<Wd("drop")>>), Plain(<<Wd("+")>>), Plain(<<Wd("over")>>),
            Ph("meta", <<Wd("#(")>>), Ph("endmeta", <<Wd("#)")>>), Ph("vec", <<Wd("[")>>), Ph("endvec", <<Wd("]")>>) >>
     [] Frag = "mix" ->
         << Plain(<<L(1)>>), Plain(<<L(0)>>), Plain(<<Wd("dup")>>), Plain(<<Wd("+")>>), Plain(<<Wd("I")>>), Plain(<<Wd("print")>>),
